@@ -119,6 +119,33 @@ def rollback_rules(rep, prog, C, fams, r22, r23, names=("add_impl", "update_impl
                 rep.ob(r22, "remove-before-insert|%s|%s|%s" % (name, side, fam), not late,
                        "an id-keyed removal can run after the insertion of the same id in the %s pass (it would delete the entry just inserted)" % side,
                        late[0].where() if late else f.file + ":%d" % f.line)
+        # a multi-valued B-tree operation (array / map key set) can be refused after it applied some of its values (the index
+        # defers a mid-loop conflict and keeps what it applied): the refused operation itself must be known to the rollback, i.e. its
+        # record is made before the call, or on its Err edge before the forward pass returns
+        for (op, e) in sorted(fwd.get("btree_indexes", ()), key=lambda x: (x[1].line, x[1].block)):
+            if op not in ("insert", "update", "batch_update") or e.kind != "call":
+                continue
+            g = e.fn
+            def _is_record(st_or_ev):
+                return True
+            recs = [x for x in g.calls_named(r"(HashMap|hash_map::HashMap|hashbrown::map::HashMap)::<K, V, S(, A)?>::insert$|collections::hash::map::HashMap::<K, V, S>::insert$")]
+            before = any(g.dominates(x.block, e.block) and x.block != e.block and not g.can_reach([e.block], [x.block]) or
+                         (g.dominates(x.block, e.block) and x.block != e.block) for x in recs)
+            oks, errs = g.result_edges(e)
+            on_err = False
+            for t in errs:
+                reach = g.reachable_from([t])
+                if any(x.block in reach for x in recs):
+                    on_err = True
+                for b in reach:
+                    for st in g.stmts(b):
+                        # a write through a captured `&mut` (the closure environment is local 1): `(*(_1.f)) = ..`
+                        if st[0] == "A" and st[1].get("l") == 1 and st[1].get("p"):
+                            on_err = True
+            rep.ob(r22, "refused-op-known-to-rollback|%s|%s" % (name, op), before or on_err,
+                   "the B-tree %s of the forward pass is recorded for the rollback only after it succeeded: when it is refused half-way "
+                   "(unique conflict on the n-th value of an array / map key set) the values it already applied are never taken back - "
+                   "ownerless postings that refuse later writers" % op, e.where())
         # R02.3
         rb_blocks = set()
         for c, sites in rollback:
